@@ -1,5 +1,9 @@
 //! Conformance harness binding the TLA+ specification in /verif/spec to the real code in /repo.
+mod cache;
+mod evalrec;
 mod game;
+mod perft;
+mod geometry;
 mod records;
 mod replay;
 mod trace;
@@ -55,6 +59,12 @@ fn main() {
         "replay" => replay::main(rest),
         "record-games" => records::main(rest),
         "record-trace" => trace::main(rest),
+        "record-cache" => cache::main(rest),
+        "record-eval" => evalrec::main(rest),
+        "perft" => perft::main(rest),
+        "cli-count" => perft::cli(rest),
+        "geometry" => geometry::replay(rest),
+        "record-geometry" => geometry::record(rest),
         "record-game" => game::main(rest),
         "record-transient" => transient::main(rest),
         other => {
